@@ -90,3 +90,33 @@ PROPS["C18"] = dict(
                  "(remove_prefix/suffix with n<=size, front/back on non-empty views)",
                  SAN_ASSUME],
 )
+
+# ----------------------------------------------------------------------------- C15
+PROPS["C15"] = dict(
+    units={"nets": dict(src=["harness/C15_networks.cpp"])},
+    quick=[
+        R("nets", "plain", 17, 17, ["mode=zo"], partition=True),
+        R("nets", "asan", 14, 14, ["mode=zo"], partition=True),      # n = 0..13 under ASan
+        R("nets", "asan", 1, 17, ["mode=obl"], partition=True),
+        R("nets", "asan", 4, 50, ["mode=rand"]),
+    ],
+    thorough=[
+        R("nets", "plain", 17, 17, ["mode=zo"], partition=True),
+        R("nets", "asan", 17, 17, ["mode=zo"], partition=True),
+        R("nets", "asan", 1, 17, ["mode=obl"], partition=True),
+        R("nets", "asan", 16, 5000, ["mode=rand"]),
+    ],
+    rule="zo: one case per n in 0..16 = all 2^n zero-one inputs (elements carry unique ids, so "
+         "permutation is checked by identity, plus a canary behind the range) x 3 families x "
+         "{size-specific sortN, dispatching sort(begin,end)} x {less, greater}; obl: the recorded "
+         "compare-exchange index sequence of every sortN is input-independent with i<j (premise of "
+         "the zero-one principle); rand: random int/string/record inputs with duplicates under "
+         "several strict weak orders, checked for order and multiset equality. A class is a distinct "
+         "(mode, family, entry point, order, n) tuple that completed.",
+    exhaustive=dict(quick="all 2^n zero-one inputs for every n = 0..16, every family, both entry points, "
+                          "ascending and descending (uninstrumented build; ASan build n <= 13)",
+                    thorough="as quick, ASan build also up to n = 16"),
+    require=dict(any=["zero_one_n_complete", "random_inputs"]),
+    assumptions=["zero-one principle: a data-oblivious comparator network that sorts all 0/1 inputs sorts "
+                 "every input (obliviousness itself is monitored by mode=obl)", SAN_ASSUME],
+)
